@@ -41,6 +41,9 @@ func errNil(name string, calls []ssa.Instruction, idx int) guard {
 		n := 0
 		for _, r := range ir.Result(v, idx) {
 			for _, b := range ir.NilBranches(r) {
+				if b.Pol < 0 {
+					continue
+				}
 				g.sites = append(g.sites, guardSite{b, in})
 				n++
 			}
@@ -65,7 +68,10 @@ func boolIs(name string, calls []ssa.Instruction, idx int, want bool) guard {
 		for _, r := range ir.Result(v, idx) {
 			for _, b := range ir.TrueBranches(r) {
 				if !want {
-					b = ir.Branch{If: b.If, Idx: 1 - b.Idx}
+					b = b.Flip()
+				}
+				if b.Pol < 0 {
+					continue
 				}
 				g.sites = append(g.sites, guardSite{b, in})
 				n++
@@ -91,7 +97,10 @@ func cmpIs(name string, cmps []ssa.Instruction, want bool) guard {
 		n := 0
 		for _, b := range ir.TrueBranches(v) {
 			if !want {
-				b = ir.Branch{If: b.If, Idx: 1 - b.Idx}
+				b = b.Flip()
+			}
+			if b.Pol < 0 {
+				continue
 			}
 			g.sites = append(g.sites, guardSite{b, in})
 			n++
@@ -114,7 +123,10 @@ func equalIs(name string, cmps []ssa.Instruction, wantEqual bool) guard {
 		n := 0
 		for _, b := range ir.EqBranches(bo) {
 			if !wantEqual {
-				b = ir.Branch{If: b.If, Idx: 1 - b.Idx}
+				b = b.Flip()
+			}
+			if b.Pol < 0 {
+				continue
 			}
 			g.sites = append(g.sites, guardSite{b, in})
 			n++
@@ -137,6 +149,9 @@ func okIs(name string, ins []ssa.Instruction) guard {
 		n := 0
 		for _, r := range ir.Result(v, 1) {
 			for _, b := range ir.TrueBranches(r) {
+				if b.Pol < 0 {
+					continue
+				}
 				g.sites = append(g.sites, guardSite{b, in})
 				n++
 			}
